@@ -47,6 +47,7 @@ HOSTILE_PATS = {
     r'[\'"]': ["'", '"'],
     '[^\t\n]+': ['a b', 'x'],        # a LITERAL tab and newline inside the character class
     'a\tb': ['a\tb'],                # a literal tab in the pattern
+    "\\\\'\"": ["\\'\""],             # a backslash before both kinds of quotes (not writable as a raw string)
 }
 KWLIKE = ['if', 'class', 'print', 'match', 'type', '_', 'def', 'None_', 'list', 'self']
 
